@@ -1189,6 +1189,11 @@ func (w *World) buildAttrQ(t *Task, m *MsgSpec, sp *SPNode, s *Sent) error {
 		w.notConformant(s, "literal subject")
 	}
 	f.Requested = m.Requested
+	for _, q := range m.Requested {
+		if strings.TrimSpace(q.Name) == "" {
+			w.notConformant(s, "requested attribute without a name")
+		}
+	}
 	for _, tp := range m.Tamper {
 		if tp.Op == "noquery" {
 			f.NoQuery = true
